@@ -185,6 +185,11 @@ Section byron.
     unfold check_holds in C1, C2, C3, C4. cbn [fst snd] in C1, C2, C3, C4.
     destruct cnt as [nn nv'| | | | | | | | | |]; try discriminate. cbn in Ecnt. injection Ecnt as ->.
     unfold hev in C2, C3, C4. cbn [heval flat_map] in C2, C3, C4. rewrite app_nil_r in C2, C3, C4.
-    do 38 eexists. repeat split; try eassumption; try reflexivity.
+    exists top, rest, fa, h, body, extra, fh, m0, m1,
+      (Arr fp (Arr fx (UInt nn (N.of_nat (length txl)) :: root :: wit :: more2) :: sscp :: dlgp :: updp :: more)),
+      m3, m4, fb, txs, ssc, dlg, upd, fp,
+      (Arr fx (UInt nn (N.of_nat (length txl)) :: root :: wit :: more2)), sscp, dlgp, updp, more,
+      ft, txl, fx, (UInt nn (N.of_nat (length txl))), root, wit, more2, parts, nn, c_root, c_wit, c_dlg, c_upd, mt.
+    repeat split; try assumption; try reflexivity.
   Qed.
 End byron.
